@@ -185,6 +185,7 @@ class Probe(object):
     def __init__(self, conn, sock):
         self.conn, self.sock = conn, sock
         self.events = []
+        self.pending = []        # alerts accepted by BufferedSocket but still in its queue
         self.init = None
         self.fired = False
         rl = conn._recordLayer
@@ -197,8 +198,32 @@ class Probe(object):
             for r in probe._orig_send(msg):
                 yield r
             if ct == ContentType.alert and len(data) == 2:
-                probe.events.append((data[0], data[1]))
+                # accepted by BufferedSocket: queued in write-buffering mode, else written
+                if conn.sock.buffer_writes:
+                    probe.pending.append((data[0], data[1]))
+                else:
+                    probe.events.append((data[0], data[1]))
         rl.sendRecord = logged_send
+        orig_recv = rl.recvRecord
+        self.recv_buffering = None
+
+        def logged_recv():
+            # the write-buffering flag at the time of the latest record read (logging only)
+            probe.recv_buffering = bool(conn.sock.buffer_writes)
+            for r in orig_recv():
+                yield r
+        rl.recvRecord = logged_recv
+        orig_sock_send = sock.send
+
+        def logged_sock_send(data):
+            k = orig_sock_send(data)
+            # BufferedSocket.flush*/close() empty _write_queue before handing the bytes to the
+            # real socket: queued alerts are on the wire now
+            if probe.pending and len(conn.sock._write_queue) == 0:
+                probe.events.extend(probe.pending)
+                del probe.pending[:]
+            return k
+        sock.send = logged_sock_send
         orig_close = sock.close
 
         def logged_close():
@@ -215,7 +240,9 @@ class Probe(object):
                          bool(c.session.resumable) if c.session is not None else False,
                          bool(c.closeSocket), bool(c.ignoreAbruptClose))
             self.fault = None if not c.fault else list(Fault.faultAlerts[c.fault])
+            self.buffering = bool(c.sock.buffer_writes)
             del self.events[:]
+            del self.pending[:]
 
     def final(self):
         c = self.conn
@@ -419,13 +446,16 @@ def _observe(case, seed):
             gens = [p.server.handshakeServerAsync(anon=True, settings=sset),
                     p.client.handshakeClientAnonymous(async_=True, settings=cset)]
         elif scripted is not None:
-            if under != 'client':
-                raise ValueError('scripted peer only for a client under test')
             sock.inbuf += scripted
             if how == 'genuine:eof':
                 sock.peer_closed = True
             st = dict(minv=(3, 3), maxv=(3, 4) if version == 13 else (3, 3))
-            gens = [conn.handshakeClientCert(async_=True, settings=settings(**st))]
+            if under == 'client':
+                gens = [conn.handshakeClientCert(async_=True, settings=settings(**st))]
+            else:
+                chain, key = creds('rsa')
+                gens = [conn.handshakeServerAsync(certChain=chain, privateKey=key,
+                                                  settings=settings(**st))]
         else:
             g0, g1 = _hs_gens(p, under, version, checker=checker)
             gens = [g0, g1]
@@ -440,6 +470,11 @@ def _observe(case, seed):
                 sock.fault = dict(kind='send', index=case.get('sf_index', 1), err=errno.EPIPE)
         with patch:
             res = drive(gens)
+        if how != 'patch' and probe.recv_buffering is not None:
+            # genuine events arrive through a record read: the state of the write-buffering
+            # flag at that read is the one of the event (TLS <= 1.2 client: True between
+            # ServerHello and its own Finished)
+            probe.buffering = probe.recv_buffering
 
     # ---------------------------------------------------------------- read
     elif layer == 'read':
@@ -543,6 +578,10 @@ def _observe(case, seed):
     else:
         raise ValueError(layer)
 
+    if case.get('expect_buffering') is not None and \
+            bool(case['expect_buffering']) != bool(probe.buffering):
+        raise RuntimeError('case expected write-buffering mode %r at the event: %r'
+                           % (case['expect_buffering'], case_key(case)))
     kindr, e = res[0]
     if probe.init is None or (how == 'patch' and not probe.fired):
         raise RuntimeError('the injected event never happened: %r -> %r' % (case, res))
@@ -554,8 +593,11 @@ def _observe(case, seed):
         code = class_code(e)
         descr = getattr(e, 'description', None)
         descr = int(descr) if isinstance(descr, int) else None
-    return dict(init=probe.init, fault=probe.fault, final_code=code, descr=descr,
+    return dict(init=probe.init, fault=probe.fault, buffering=probe.buffering,
+                final_code=code, descr=descr,
                 final=probe.final(), trace=list(probe.events),
+                final_buffering=bool(conn.sock.buffer_writes), queued=list(probe.pending),
+                queue_bytes=sum(len(x) for x in conn.sock._write_queue),
                 exc=None if kindr == 'ok' else repr(e)[:200])
 
 
@@ -629,6 +671,21 @@ def tap_zero_key_share(name, chunk):
     return chunk
 
 
+def tap_after_server_hello(replacement, name, chunk):
+    """On-path: everything the server sends after its ServerHello record in the first flight is
+    replaced by `replacement` (use functools.partial to bind it)."""
+    chunk = bytes(chunk)
+    if len(chunk) > 6 and chunk[0] == 22 and chunk[5] == 2:
+        n = (chunk[3] << 8) | chunk[4]
+        return chunk[:5 + n] + replacement
+    return chunk
+
+
+BAD_CERTIFICATE_RECORD = bytes(bytearray([22, 3, 3, 0, 5, 11, 0, 0, 1, 0]))   # Certificate, 1 byte
+EARLY_SHD_RECORD = bytes(bytearray([22, 3, 3, 0, 4, 14, 0, 0, 0]))           # ServerHelloDone
+PEER_ALERT_LEVELS = (0, 1, 2, 3, 255)
+
+
 def genuine_cases():
     """Cases where the peer / transport really misbehaves (no patch at all)."""
     A = AlertDescription
@@ -683,7 +740,51 @@ def genuine_cases():
     # _sendError(insufficient_security) in the handshake body
     add('handshake', 'direct', ('senderror', A.insufficient_security, 0),
         'genuine:anon-no-mutual-group', under='server')
+    # received alerts of every level (the code treats everything that is not a warning like a
+    # fatal alert), client and server under test, TLS 1.2 and 1.3 hello
+    for lv in PEER_ALERT_LEVELS:
+        for ds in (A.handshake_failure, A.user_canceled, A.close_notify):
+            for ver in (12, 13):
+                add('handshake', 'parser', ('peeralert', lv, ds), 'genuine:bytes',
+                    bytes=_alert_record(lv, ds), version=ver)
+            add('handshake', 'parser', ('peeralert', lv, ds), 'genuine:bytes',
+                bytes=_alert_record(lv, ds), version=12, under='server')
+        add('handshake', 'parser', ('peeralert', lv, A.internal_error), 'genuine:bytes',
+            bytes=_alert_record(lv, A.internal_error), version=13, under='server',
+            close_socket=False)
+    # write-buffering mode: the TLS 1.2 client has sock.buffer_writes = True while it reads
+    # Certificate / ServerKeyExchange / ServerHelloDone.  _sendError must flush, switch the
+    # buffering off and WRITE the alert (with closeSocket = False nothing else would ever
+    # flush it); the close_notify reply to a warning alert is only queued there.
+    import functools
+    for cs in (False, True):
+        add('handshake', 'parser', raise_action('DecodeError'), 'genuine:tap', version=12,
+            tap=functools.partial(tap_after_server_hello, BAD_CERTIFICATE_RECORD),
+            close_socket=cs, expect_buffering=True)
+        add('handshake', 'parser', ('senderror', A.unexpected_message, 0), 'genuine:tap',
+            version=12, tap=functools.partial(tap_after_server_hello, EARLY_SHD_RECORD),
+            close_socket=cs, expect_buffering=True)
+        add('handshake', 'record', ('senderror', A.unexpected_message, 0), 'genuine:tap',
+            version=12, close_socket=cs, expect_buffering=True,
+            tap=functools.partial(tap_after_server_hello, bytes(bytearray([22, 3, 3, 0, 0]))))
+        add('handshake', 'record', raise_action('TLSRecordOverflow'), 'genuine:tap',
+            version=12, close_socket=cs, expect_buffering=True,
+            tap=functools.partial(tap_after_server_hello,
+                                  bytes(bytearray([22, 3, 3, 0xff, 0xff]))))
+        for lv, ds in ((1, A.user_canceled), (2, A.handshake_failure), (0, A.handshake_failure),
+                       (255, A.internal_error), (1, A.close_notify), (3, A.close_notify)):
+            add('handshake', 'parser', ('peeralert', lv, ds), 'genuine:tap', version=12,
+                tap=functools.partial(tap_after_server_hello, _alert_record(lv, ds)),
+                close_socket=cs, expect_buffering=True)
     # --- read
+    for lv in PEER_ALERT_LEVELS:
+        for ds in (A.internal_error, A.user_canceled, A.close_notify):
+            add('read', 'parser', ('peeralert', lv, ds), 'genuine:peer-alert',
+                version=12 if lv % 2 else 13, under='server' if lv in (0, 1) else 'client')
+            add('close', 'parser', ('peeralert', lv, ds), 'genuine:peer-alert',
+                close_socket=False, version=13 if lv % 2 else 12)
+        add('read', 'parser', ('peeralert', lv, A.handshake_failure), 'genuine:peer-alert',
+            version=12, close_socket=False)
     for ver in (12, 13):
         add('read', 'record', raise_action('TLSBadRecordMAC'), 'genuine:badmac',
             version=ver)
@@ -795,15 +896,17 @@ def lit(case, obs):
     kind, a1, a2 = case['action']
     i = obs['init']
     f = obs['final']
-    inp = '((%s, %s), (%s, %s, %s), %s, (%s, %s, %s, %s, %s, %s), %s)' % (
+    inp = '((%s, %s), (%s, %s, %s), %s, (%s, %s, %s, %s, %s, %s), %s, %s)' % (
         z(LAYER_CODES[case['layer']]), z(DEPTH_CODES[case['depth']]),
         z(ACTION_CODES[kind]), z(a1), z(a2), b(case.get('sf', False)),
         b(i[0]), b(i[1]), b(i[2]), b(i[3]), b(i[4]), b(i[5]),
-        vlib.optlit(obs['fault'], lambda l: vlib.listlit(l, z)))
-    out = '(%s, %s, (%s, %s, %s, %s), %s)' % (
+        vlib.optlit(obs['fault'], lambda l: vlib.listlit(l, z)), b(obs['buffering']))
+    evl = lambda e: '(%s, %s)' % (z(e[0]), z(e[1]))
+    out = '(%s, %s, (%s, %s, %s, %s), %s, (%s, %s))' % (
         z(obs['final_code']), vlib.optlit(obs['descr'], z),
         b(f[0]), b(f[1]), b(f[2]), b(f[3]),
-        vlib.listlit(obs['trace'], lambda e: '(%s, %s)' % (z(e[0]), z(e[1]))))
+        vlib.listlit(obs['trace'], evl),
+        b(obs['final_buffering']), vlib.listlit(obs['queued'], evl))
     return '(%s, %s)' % (inp, out)
 
 
